@@ -165,11 +165,13 @@ int main (int argc, char *argv[]) {
 
     if(!zck_compare_chunk_digest(tgt_idx, src_idx))
         LOG_ERROR("WARNING: Dicts don't match\n");
-    ssize_t dl_size = zck_get_header_length(zck_tgt);
-    if(dl_size < 0)
+    if(zck_get_header_length(zck_tgt) < 0)
         exit(1);
-    ssize_t header_size = zck_get_header_length(zck_tgt);
-    ssize_t total_size = header_size;
+    /* Sizes come from the (untrusted) index: add them up unsigned and work out
+     * the percentage in floating point so nothing overflows */
+    size_t header_size = zck_get_header_length(zck_tgt);
+    size_t dl_size = header_size;
+    size_t total_size = header_size;
     ssize_t matched_chunks = 0;
     for(tgt_idx = zck_get_first_chunk(zck_tgt); tgt_idx;
         tgt_idx = zck_get_next_chunk(tgt_idx)) {
@@ -190,7 +192,7 @@ int main (int argc, char *argv[]) {
     }
     printf("Would download in total %lli of %lli bytes (%lli%%), %lli in the header and the rest in %lli chunks\n",
            (long long) dl_size, (long long) total_size,
-           (long long) (dl_size * 100 / total_size),
+           (long long) ((long double)dl_size * 100 / total_size),
            (long long) header_size,
            (long long) (zck_get_chunk_count(zck_tgt) - matched_chunks));
     printf("Matched %lli of %llu (%lli%%) chunks\n", (long long) matched_chunks,
